@@ -68,7 +68,10 @@ def rand_utf8(r):
     hold characters that take 2, 3 or 4 bytes."""
     base = rand_text(r).decode()
     if r.random() < 0.35:
-        extra = [r.choice(['\u00e9', '\u00fc', '\u00df', '\u0416', '\u65e5', '\u672c', '\U0001F600'])
+        # (also text that is not in a Unicode normalisation form: base letter + combining mark,
+        # ANGSTROM and OHM signs, decomposed Hangul - it travels as it is)
+        extra = [r.choice(['\u00e9', '\u00fc', '\u00df', '\u0416', '\u65e5', '\u672c', '\U0001F600', 'e\u0301',
+                           '\u212b', '\u2126', '\u1100\u1161', 'a\u0308\u0323'])
                  for _ in range(r.choice([1, 1, 2, 5]))]
         chars = list(base) + extra
         r.shuffle(chars)
@@ -282,6 +285,27 @@ def boundary_trees(r):
                              {'type': 0x56, 'rsv': 0, 'uid': rand_uid(r, n), 'appinfo': b'\1\2'},
                              {'type': 0x52, 'rsv': 0, 'uid': rand_uid(r, n)}]}]
         yield ('uidlen', n), tree
+    # association PDUs much longer than 64 KiB (no single item can be; many large ones together)
+    for nctx, nts in ((128, 7), (128, 15)):
+        items = [{'type': 0x10, 'rsv': 0, 'name': rand_uid(r, 64)}]
+        for k in range(nctx):
+            items.append({'type': 0x20, 'rsv1': 0, 'id': 2 * k + 1, 'rsv2': 0, 'rsv3': 0, 'rsv4': 0,
+                          'abstract': {'type': 0x30, 'rsv': 0, 'name': rand_uid(r, 64)},
+                          'ts': [{'type': 0x40, 'rsv': 0, 'name': rand_uid(r, 64)} for _ in range(nts)]})
+        items.append({'type': 0x50, 'rsv': 0, 'subs': [{'type': 0x51, 'rsv': 0, 'maxlen': 16384},
+                                                       {'type': 0x52, 'rsv': 0, 'uid': rand_uid(r, 64)}]})
+        yield ('big-rq', nts), {'type': 1, 'rsv1': 0, 'version': 1, 'rsv2': 0, 'called': b'BIG-SCP',
+                                'calling': b'BIG-SCU', 'rsv3': b'\0' * 32, 'items': items}
+    subs = [{'type': 0x51, 'rsv': 0, 'maxlen': 16384}, {'type': 0x52, 'rsv': 0, 'uid': rand_uid(r, 64)}]
+    subs += [{'type': 0x54, 'rsv': 0, 'uid': rand_uid(r, 64), 'scu': 1, 'scp': 1} for _ in range(2100)]
+    yield ('big-ac', 0), {'type': 2, 'rsv1': 0, 'version': 1, 'rsv2': 0, 'called': b'BIG-SCP',
+                          'calling': b'BIG-SCU', 'rsv3': b'\0' * 32,
+                          'items': [{'type': 0x10, 'rsv': 0, 'name': rand_uid(r, 64)},
+                                    {'type': 0x21, 'rsv1': 0, 'id': 1, 'rsv2': 0, 'result': 0, 'rsv3': 0,
+                                     'ts': {'type': 0x40, 'rsv': 0, 'name': IMPLICIT}},
+                                    {'type': 0x50, 'rsv': 0, 'subs': subs[:900]},
+                                    {'type': 0x50, 'rsv': 0, 'subs': subs[900:1800]},
+                                    {'type': 0x50, 'rsv': 0, 'subs': subs[1800:]}]}
     for v in U8:
         yield ('rj', v), {'type': 3, 'rsv1': v, 'rsv2': v, 'result': v, 'source': 255 - v,
                           'reason': v ^ 0x55}
